@@ -393,7 +393,7 @@ pub fn check() -> Check {
     )
     .assume("wasmi 0.39.1 (the interpreter the engine itself uses) is the reference semantics for the uninstrumented module; host functions are deterministic stubs")
     .assume("the stack limiter is stricter than wasmi's own recursion limit by design: for recursion deeper than 50 frames only 'both trap, or only the instrumented run traps in the limiter' is required")
-    .part(Part::new("differential", 6_000, 300_000, 1228, case))
-    .part(Part::new("engine", 1_500, 60_000, 1200, engine_case))
+    .part(Part::new("differential", 16_000, 800_000, 1228, case))
+    .part(Part::new("engine", 3_000, 120_000, 1200, engine_case))
     .min_nontrivial_pct(20.0)
 }
